@@ -33,6 +33,8 @@ structure OffFacts where
   saturationCode : Nat
   /-- `if notify { return true; }` precedes the saturation reply -/
   saturationDropsNotify : Bool
+  /-- both replies are built with `create_error_response_like(&request, ..)` (request id and query) -/
+  repliesCarryRequestId : Bool
   /-- `MiddlewarePipeline::execution` is `self.handler.execution()` -/
   executionForwards : Bool
   /-- `OffReaderHandler::execution` is `Execution::OffReader` and the `_blocking` registrars wrap with it -/
@@ -42,7 +44,8 @@ structure OffFacts where
 def specOffFacts : OffFacts :=
   { tryAcquire := true, saturationNeverWaits := true, permitHeldForRun := true, panicCaught := true,
     panicCode := specCodes.internalError, saturationCode := specCodes.resourceExhausted,
-    saturationDropsNotify := true, executionForwards := true, blockingIsOffReader := true }
+    saturationDropsNotify := true, repliesCarryRequestId := true, executionForwards := true,
+    blockingIsOffReader := true }
 
 /-- How a route was registered. -/
 inductive RouteKind where
@@ -135,7 +138,8 @@ def readOne (f : OffFacts) (s : St) (a : Arrival) : St :=
       if s.permits < c then spawn f { s with permits := s.permits + 1 } a true
       else if f.tryAcquire && f.saturationNeverWaits then
         let s1 := { s with reports := s.reports ++ [.saturation a.id] }
-        if a.notify && f.saturationDropsNotify then s1 else push s1 false a.id f.saturationCode
+        if a.notify && f.saturationDropsNotify then s1
+        else push s1 false (if f.repliesCarryRequestId then a.id else 0) f.saturationCode
       else { s with readerBusy := some (.waitingSlot a) }
 
 /-- The reader works through the backlog until it gets stuck again or the backlog is empty. -/
@@ -160,7 +164,8 @@ def finish (f : OffFacts) (s : St) (id : Nat) (notify : Bool) (k : ExitKind) : S
   | .ret => push s notify id 0
   | .err c => push s notify id c
   | .panic =>
-    if f.panicCaught then push { s with reports := s.reports ++ [.handlerPanic id] } notify id f.panicCode
+    if f.panicCaught then
+      push { s with reports := s.reports ++ [.handlerPanic id] } notify (if f.repliesCarryRequestId then id else 0) f.panicCode
     else s
 
 def step (f : OffFacts) (s : St) : Ev → St
